@@ -135,6 +135,15 @@ CONCRETE_INPUTS = [
     ("non-ASCII text, long", "BEGIN:VEVENT\r\nSUMMARY:" + "\u00e9\u20ac" * 50 + "\r\nEND:VEVENT\r\n"),
     ("lower-case names, LF line ends", "begin:vevent\nsummary:a\nend:vevent\n"),
     ("unknown component and property", "BEGIN:X-THING\r\nX-PROP;X-PAR=1:v\r\nEND:X-THING\r\n"),
+    # parameter values have two shapes (text, or a list when the value holds commas): every
+    # consumer of a parameter must cope with both
+    ("multi-valued TZID on a date-time in an event",
+     "BEGIN:VEVENT\r\nDTSTART;TZID=Europe/Berlin,Europe/Paris:20200101T100000\r\nSUMMARY:a\r\nEND:VEVENT\r\n"),
+    ("multi-valued TZID on a date-time in a todo",
+     "BEGIN:VTODO\r\nDUE;TZID=Europe/Berlin,Europe/Paris:20200101T100000\r\nEND:VTODO\r\n"),
+    ("multi-valued TZID on a date list", "BEGIN:VEVENT\r\nEXDATE;TZID=A,B:20200101T100000,20200102T100000\r\nEND:VEVENT\r\n"),
+    ("multi-valued TZID on FREEBUSY",
+     "BEGIN:VFREEBUSY\r\nFREEBUSY;TZID=A,B:20200101T100000Z/PT1H\r\nEND:VFREEBUSY\r\n"),
     ("categories ending in a backslash", "BEGIN:VEVENT\r\nCATEGORIES:work,home\\\r\nEND:VEVENT\r\n"),
 ]
 
